@@ -15,6 +15,7 @@ type kxWorld struct {
 	w      *rworld
 	lo, hi *rnode
 	clears [2]bool
+	role   [2]string
 }
 
 func newKxWorld(ids []*m.Address) (*kxWorld, error) {
@@ -68,6 +69,14 @@ func (k *kxWorld) agree() bool {
 	li, lout := sl.Encryption().VerifKeys()
 	hin, hout := sh.Encryption().VerifKeys()
 	return len(li) > 0 && len(lout) > 0 && bytes.Equal(li, hout) && bytes.Equal(lout, hin)
+}
+
+func (k *kxWorld) keysOf(x bool) (in, out []byte) {
+	s := k.node(x).st.GetSession(k.node(!x).id.IP)
+	if s == nil {
+		return nil, nil
+	}
+	return s.Encryption().VerifKeys()
 }
 
 func (k *kxWorld) pcode(x bool) int {
@@ -160,7 +169,17 @@ func (k *kxWorld) apply(c *Ctx, e kxEv) (enabled bool, note string) {
 		if e.i >= len(ch) {
 			return false, ""
 		}
+		recvIn, _ := k.keysOf(!e.x)
+		nq := len(k.w.queue)
 		res := k.w.step(ch[e.i])
+		// how the receiver got its current keys: by serving a request (it answered) or by completing its own
+		if nowIn, _ := k.keysOf(!e.x); !bytes.Equal(nowIn, recvIn) {
+			if len(k.w.queue) == nq { // one frame consumed, one response produced
+				k.role[b2i(!e.x)] = "server"
+			} else {
+				k.role[b2i(!e.x)] = "client"
+			}
+		}
 		if res.panicked() {
 			c.Violate("a key-setup frame crashed a router worker", "kx-panic", map[string]any{"event": e.String()})
 		}
@@ -257,7 +276,9 @@ func runC14(c *Ctx) error {
 			if len(k.w.queue) == 0 && k.est(true) && k.est(false) && !k.agree() {
 				key := "kx-mismatch"
 				what := "no setup frame is in flight and both routers consider encryption established, but their keys differ"
-				if inflightExpiry {
+				// D19 is the crossing: after an in-flight expiry BOTH routers hold keys they got by serving the
+				// other's request; any other shape of mismatch is a different violation
+				if inflightExpiry && k.role[0] == "server" && k.role[1] == "server" {
 					key = "d19-hello-state-expired-while-setup-in-flight"
 					what += " (a hello state expired while a setup frame was in flight)"
 				}
@@ -286,6 +307,14 @@ func runC14(c *Ctx) error {
 	for _, first := range []bool{true, false} {
 		if err := runSchedule(false, []kxEv{{kind: "start", x: true}, {kind: "start", x: false}, {kind: "deliver", x: first, i: 0}, {kind: "deliver", x: !first, i: 0},
 			{kind: "deliver", x: true, i: 0}, {kind: "deliver", x: false, i: 0}}, 6, "concurrent-no-loss"); err != nil {
+			return err
+		}
+	}
+	// a slow response that arrives after the initiator gave up and retried: it must not be combined with
+	// the retry's key (both initiators)
+	for _, x := range []bool{true, false} {
+		if err := runSchedule(true, []kxEv{{kind: "start", x: x}, {kind: "deliver", x: x, i: 0}, {kind: "expire", x: x}, {kind: "start", x: x},
+			{kind: "deliver", x: x, i: 0}, {kind: "deliver", x: !x, i: 0}, {kind: "deliver", x: !x, i: 0}}, 7, "late-response-after-retry"); err != nil {
 			return err
 		}
 	}
